@@ -39,6 +39,9 @@ RLe(a, b) == a[1] * b[2] <= b[1] * a[2]
 RIsZero(a) == a[1] = 0
 RIsInt(a) == a[2] = 1
 RAbs(a) == <<Abs(a[1]), a[2]>>
+RCx(re, im) == re                       \* real instance: the imaginary part is not representable (only used with im = 0)
+RIsReal(a) == TRUE
+RSmall(a, M) == Abs(a[1]) <= M /\ a[2] <= M
 
 RECURSIVE RPowNat(_, _)
 RPowNat(a, n) == IF n = 0 THEN ROne ELSE RMul(a, RPowNat(a, n - 1))
